@@ -136,9 +136,9 @@ def tasks_for(tier):
         ('crash', dict(levy='space-time', size=(1,), cache_size=1), 2, True, mp, to),
         ('crash', dict(levy='davie', size=(1, 2), cache_size=None), 1, True, mp, to),
         ('crash', dict(levy='none', size=(1,), tol=0.1), 1, True, mp, to),
-        ('crash', dict(levy='none', size=(1,), tol=0.1, halfway=True), 1, True, mp, to),
-        ('crash', dict(levy='space-time', size=(), tol=0.1, halfway=True, cache_size=1), 1, True, mp, to),
-        ('crash', dict(wrapper='tree', levy='none', size=(1,), tol=0.1), 1, True, mp, to),
+        ('crash', dict(levy='none', size=(1,), tol=0.1, halfway=True, t1=Fraction(1, 2)), 1, True, mp, to),
+        ('crash', dict(levy='space-time', size=(), tol=0.1, halfway=True, cache_size=1, t1=Fraction(1, 2)), 1, True, mp, to),
+        ('crash', dict(wrapper='tree', levy='none', size=(1,), tol=0.1, t1=Fraction(1, 2)), 1, True, mp, to),
         ('crash', dict(levy='none', size=(1,), cache_size=2, dt=0.25), 1, True, mp, to),
         ('crash', dict(levy='none', size=(1,), cache_size=0, dt=0.25), 1, True, mp, to),
         ('chain', dict(levy='none', size=(1,), cache_size=1), 8, True, mp, to),
@@ -147,7 +147,7 @@ def tasks_for(tier):
     ]
     if not q:
         T += [
-            ('crash', dict(levy='none', size=(1,), tol=0.1, halfway=True), 2, True, mp, to),
+            ('crash', dict(levy='none', size=(1,), tol=0.1, halfway=True, t1=Fraction(1, 2)), 2, True, mp, to),
             ('crash', dict(levy='foster', size=(2, 2), cache_size=1), 2, True, mp, to),
             ('crash', dict(levy='none', size=(1,), tol=0.01, halfway=True, t1=Fraction(1, 4)), 1, True, mp, to),
             ('crash', dict(levy='none', size=(1,), tol=0.1, halfway=True, t0=Fraction(-46, 100), t1=Fraction(-16, 100)), 1, True, mp, to),
